@@ -582,7 +582,11 @@ impl BuiltInFunction {
                     format!("string bottom index `{top}` could not be used to index (usize)")
                 })?;
 
-                if bottom > top || top > s.len() {
+                if bottom > top
+                    || top > s.len()
+                    || !s.is_char_boundary(bottom)
+                    || !s.is_char_boundary(top)
+                {
                     bail!("cannot delete {bottom}..{top} from a string of length {}", s.len())
                 }
 
@@ -780,11 +784,15 @@ impl BuiltInFunction {
                     ));
                 }
 
-                let (lhs, rhs) = s.split_at(
-                    (*mid)
-                        .try_into()
-                        .with_context(|| format!("`{mid}` is an invalid index (usize)"))?,
-                );
+                let mid: usize = (*mid)
+                    .try_into()
+                    .with_context(|| format!("`{mid}` is an invalid index (usize)"))?;
+
+                if !s.is_char_boundary(mid) {
+                    bail!("split index {mid} is out of range for a string of length {}: it is inside a character", s.len())
+                }
+
+                let (lhs, rhs) = s.split_at(mid);
 
                 Ok((
                     Some(vector![
